@@ -92,6 +92,10 @@ def mk(case):
         st.qmin, st.qmax = case["qwin"]     # "Merging": {"Transform": {"Qmin", "Qmax"}}: the window of the ingestion step
     st.q_master[st.sq_title] = np.array(case["q"], dtype=float)
     st.sq_master[st.sq_title] = np.array(case["s"], dtype=float)
+    if len(case["q"]) % 3 == 0:
+        # the merged S(Q) was edited after the merge: the Q[S(Q)-1] curve stored by that merge is stale; the steps work on "the merged data"
+        st.q_master[st.qsq_minus_one_title] = np.array(case["q"], dtype=float)
+        st.sq_master[st.qsq_minus_one_title] = np.array(case["q"], dtype=float) * (np.array(case["s"], dtype=float)[::-1] - 1.0) * 0.5
     return st
 
 
